@@ -316,7 +316,7 @@ func (c *c12Cli) notesSeen() int {
 func c12WaitFor(cond func() bool) bool {
 	deadline := time.Now().Add(c12Wait)
 	for !cond() {
-		if time.Now().After(deadline) {
+		if time.Now().After(deadline) || (activeTracker != nil && activeTracker.bad()) {
 			return false
 		}
 		time.Sleep(100 * time.Microsecond) // polling a state witness
@@ -335,7 +335,11 @@ func c12Op(c *c12Cli, op string, bigLen int, notify func() int, hangs chan struc
 		}
 		return def
 	}
-	ctx, cancel := context.WithTimeout(context.Background(), c12Wait)
+	base := context.Background()
+	if activeTracker != nil {
+		base = activeTracker.ctx() // cancelled once the trace contains a violation
+	}
+	ctx, cancel := context.WithTimeout(base, c12Wait)
 	defer cancel()
 	switch f[0] {
 	case "get":
@@ -416,7 +420,7 @@ func c12Op(c *c12Cli, op string, bigLen int, notify func() int, hangs chan struc
 		}
 	case "hang":
 		// a request that is never answered: cancelled once the handler has seen it
-		hctx, hcancel := context.WithCancel(context.Background())
+		hctx, hcancel := context.WithCancel(base)
 		done := make(chan error, 1)
 		go func() {
 			r, err := c.cc.Get(hctx, "/h")
@@ -427,6 +431,7 @@ func c12Op(c *c12Cli, op string, bigLen int, notify func() int, hangs chan struc
 		}()
 		select {
 		case <-hangs:
+		case <-base.Done():
 		case <-time.After(c12Wait):
 			c.flag("%s: request never reached the handler", op)
 		}
@@ -455,7 +460,7 @@ func c12Op(c *c12Cli, op string, bigLen int, notify func() int, hangs chan struc
 			wg.Add(1)
 			go func(i int) {
 				defer wg.Done()
-				bctx, bcancel := context.WithTimeout(context.Background(), c12Wait)
+				bctx, bcancel := context.WithTimeout(base, c12Wait)
 				defer bcancel()
 				if i%2 == 0 {
 					r, err := c.cc.Get(bctx, "/a")
@@ -494,8 +499,13 @@ func genC12NetScript(rng *Rng, n int, udp bool) []string {
 
 // hijack-wait wrappers: a message handed to a waiting caller is released by that caller before the receive
 // path runs its own clean-up
-func c12WaitTCP(tr *poolTracker) config.ProcessReceivedMessageFunc[*tcpclient.Conn] {
-	return func(req *pool.Message, cc *tcpclient.Conn, handler config.HandlerFunc[*tcpclient.Conn]) {
+func c12WaitTCP(tr *poolTracker) func(req *pool.Message, cc *tcpclient.Conn, handler tcpclient.HandlerFunc) {
+	return func(req *pool.Message, cc *tcpclient.Conn, handler tcpclient.HandlerFunc) {
+		defer func() {
+			if r := recover(); r != nil {
+				tr.notePanic(r) // a panic on the receive path is an observable, not a crash of hx
+			}
+		}()
 		cc.ProcessReceivedMessageWithHandler(req, func(w *responsewriter.ResponseWriter[*tcpclient.Conn], r *pool.Message) {
 			handler(w, r)
 			if r.IsHijacked() {
@@ -507,6 +517,11 @@ func c12WaitTCP(tr *poolTracker) config.ProcessReceivedMessageFunc[*tcpclient.Co
 
 func c12WaitUDP(tr *poolTracker) config.ProcessReceivedMessageFunc[*udpclient.Conn] {
 	return func(req *pool.Message, cc *udpclient.Conn, handler config.HandlerFunc[*udpclient.Conn]) {
+		defer func() {
+			if r := recover(); r != nil {
+				tr.notePanic(r) // a panic on the receive path is an observable, not a crash of hx
+			}
+		}()
 		cc.ProcessReceivedMessageWithHandler(req, func(w *responsewriter.ResponseWriter[*udpclient.Conn], r *pool.Message) {
 			handler(w, r)
 			if r.IsHijacked() {
@@ -532,7 +547,7 @@ func c12NetBuckets(fam string, ops []string, flags []string, evs []lcEvent) []st
 // ---------------------------------------------------------------- N: tcp
 
 // descriptor: N#<clientPool>,<serverPool>,<bigLen>|<ops>
-func c12TCPPair(e *Emitter, tr *poolTracker, desc, arg string) {
+func c12TCPPair(e *c12Out, tr *poolTracker, desc, arg string) {
 	i := strings.Index(arg, "|")
 	if i < 0 {
 		return
@@ -545,7 +560,10 @@ func c12TCPPair(e *Emitter, tr *poolTracker, desc, arg string) {
 	app := newC12App[*tcpclient.Conn](bigLen)
 	noTick := options.WithPeriodicRunner(func(func(now time.Time) bool) {})
 	srv := tcp.NewServer(options.WithMessagePool(sp), options.WithBlockwise(true, blockwise.SZX64, time.Hour),
-		options.WithHandlerFunc(app.handle), options.WithErrors(c12Err), noTick)
+		options.WithHandlerFunc(app.handle), options.WithErrors(c12Err), noTick,
+		// tcp/client.NewConnWithOpts never reads Config.ProcessReceivedMessage, so the option
+		// WithProcessReceivedMessageFunc has no effect on tcp: the wrapper goes in through the verif hook
+		options.WithOnNewConn(func(cc *tcpclient.Conn) { cc.VerifSetProcessReceivedMessage(c12WaitTCP(tr)) }))
 	l := newMemListener()
 	served := make(chan error, 1)
 	go func() { served <- srv.Serve(l) }()
@@ -563,7 +581,7 @@ func c12TCPPair(e *Emitter, tr *poolTracker, desc, arg string) {
 	l.ch <- b
 	cli := &c12Cli{}
 	cc, err := tcp.Client(a, options.WithMessagePool(cp), options.WithBlockwise(true, blockwise.SZX64, time.Hour),
-		options.WithErrors(c12Err), noTick, options.WithProcessReceivedMessageFunc(c12WaitTCP(tr)),
+		options.WithErrors(c12Err), noTick,
 		options.WithCSMExchangeTimeout(c12Wait), // return only after the peer's first CSM (the one announcing block-wise) was processed
 		options.WithHandlerFunc(func(w *responsewriter.ResponseWriter[*tcpclient.Conn], r *pool.Message) {
 			trkHold(r)
@@ -572,8 +590,12 @@ func c12TCPPair(e *Emitter, tr *poolTracker, desc, arg string) {
 	if err != nil {
 		cli.flag("tcp.Client: %v", err)
 	} else {
+		cc.VerifSetProcessReceivedMessage(c12WaitTCP(tr)) // before the first request (only signals were received so far)
 		cli.cc = cc
 		for _, op := range ops {
+			if tr.bad() {
+				break
+			}
 			c12Op(cli, op, bigLen, app.notify, app.hangs)
 		}
 		_ = cc.Close()
@@ -602,7 +624,7 @@ func c12TCPPair(e *Emitter, tr *poolTracker, desc, arg string) {
 // ---------------------------------------------------------------- S: udp server
 
 // descriptor: S#<clients>,<clientPool>,<serverPool>,<bigLen>|<client>/<op> ...
-func c12UDPServer(e *Emitter, tr *poolTracker, desc, arg string) {
+func c12UDPServer(e *c12Out, tr *poolTracker, desc, arg string) {
 	i := strings.Index(arg, "|")
 	if i < 0 {
 		return
@@ -621,7 +643,7 @@ func c12UDPServer(e *Emitter, tr *poolTracker, desc, arg string) {
 	noTick := options.WithPeriodicRunner(func(func(now time.Time) bool) {})
 	trans := options.WithTransmission(8, time.Hour, 2) // loopback does not lose datagrams: no retransmission timers
 	srv := udp.NewServer(options.WithMessagePool(sp), options.WithBlockwise(true, blockwise.SZX64, time.Hour),
-		options.WithHandlerFunc(app.handle), options.WithErrors(c12Err), noTick, trans)
+		options.WithHandlerFunc(app.handle), options.WithErrors(c12Err), noTick, trans, options.WithProcessReceivedMessageFunc(c12WaitUDP(tr)))
 	served := make(chan error, 1)
 	go func() { served <- srv.Serve(l) }()
 	capacity := spCap
@@ -644,6 +666,9 @@ func c12UDPServer(e *Emitter, tr *poolTracker, desc, arg string) {
 	}
 	if len(clis) > 0 {
 		for _, op := range ops {
+			if tr.bad() {
+				break
+			}
 			k := 0
 			if j := strings.Index(op, "/"); j > 0 {
 				k, _ = strconv.Atoi(op[:j])
